@@ -156,7 +156,7 @@ def _impl(tier, seed, search):
             ok, r = L.noraise('Twist3.exp', lambda: Twist3(S).exp().A, dict(S=S), 'Twist3.exp')
             if ok: L.close('Twist3.exp', r, ref_exp(skewa(S)), TOL, max(1.0, float(np.linalg.norm(S[:3]))), dict(S=S))
         # ---- Exp of N twists / rotation vectors (every N, N x 6 array and list of N vectors): element k is exp of row k
-        if i % 6 == 1:
+        if i % 6 == 1 and i < 300:      # (a fixed number of sweeps: each costs ~100 reference exponentials)
             for N_ in (1, 2, 3, 4, 5, 6, 7):
                 SN = [np.r_[g.normal(size=3), axis(g) * float(g.uniform(0.1, 3.0))] for _ in range(N_)]
                 for form_, arg_ in (('array', np.array(SN)), ('list', [list(x_) for x_ in SN])):
@@ -239,6 +239,30 @@ def _impl(tier, seed, search):
         Th = np.eye(4); Th[:3, :3] = H; Th[:3, 3] = [0.3, -1.2, 2.0]
         ok, Lg = L.noraise('log-halfturn-se3', lambda: b.trlog(Th, check=False, twist=True), dict(T=Th), 'trlog(T) with an exactly symmetric half turn')
         if ok and finite_real(Lg): L.close('exp-log-halfturn-se3', ref_exp(skewa(np.asarray(Lg, float))), Th, TOL, 3.0, dict(T=Th), sig='exp-log-se3:halfturn')
+    # ---- quarter turns about generic axes (the sine of the angle is 1 to within rounding, on either side) ----------------------
+    qaxes = [np.array([x_, y_, z_], float) for x_ in range(-4, 5) for y_ in range(-4, 5) for z_ in range(-4, 5) if (x_, y_, z_) != (0, 0, 0)]
+    for k_, a_ in enumerate(qaxes if tier != 'quick' else qaxes[(seed % 3)::3]):
+        a_ = a_ / np.linalg.norm(a_); K_ = skew(a_)
+        for thq in (math.pi / 2, -math.pi / 2):
+            # three ways of arriving at the same rotation, each with its own rounding: Rodrigues' formula, a change of frame, the matrix exponential
+            e3_ = np.eye(3)[int(np.argmin(np.abs(a_)))]; x_ = np.cross(e3_, a_); x_ = x_ / np.linalg.norm(x_); Q_ = np.column_stack([x_, np.cross(a_, x_), a_])
+            cz_, sz_ = math.cos(thq), math.sin(thq)
+            for fm_, Rq in (('rodrigues', np.eye(3) + math.sin(thq) * K_ + (1 - math.cos(thq)) * K_ @ K_), ('Q Rz Q^T', Q_ @ np.array([[cz_, -sz_, 0], [sz_, cz_, 0], [0, 0, 1]]) @ Q_.T), ('expm', ref_exp(K_ * thq))):
+                Tq = np.eye(4); Tq[:3, :3] = Rq; Tq[:3, 3] = [0.3, -0.2, 0.5]
+                inp = dict(R=Rq, axis=a_, theta=thq, built=fm_)
+                ok, Lg = L.noraise('log-quarter-turn', lambda: (b.trlog(Rq, check=False, twist=True), b.trlog(Tq, check=False, twist=True)), inp, 'trlog of a quarter turn about a generic axis', sig='log-so3:quarter-turn:raises')
+                if ok and finite_real(Lg[0]) and finite_real(Lg[1]):
+                    L.close('exp-log-quarter-turn', ref_exp(skew(np.asarray(Lg[0], float))), Rq, TOL, 1.0, inp, sig='exp-log-so3'); L.close('exp-log-quarter-turn-se3', ref_exp(skewa(np.asarray(Lg[1], float))), Tq, TOL, 1.0, inp, sig='exp-log-se3')
+    # ---- exp(S, theta) = exp(theta S) for unit twists and any theta (many turns included): prismatic, zero-pitch and screw twists ----
+    for k_ in range(30 if tier == 'quick' else 400):
+        ax_ = axis(g); kind_ = ('prismatic', 'revolute', 'screw')[k_ % 3]
+        Su = np.r_[ax_, 0, 0, 0] if kind_ == 'prismatic' else np.r_[np.cross(g.normal(size=3), ax_) + (0.0 if kind_ == 'revolute' else float(g.uniform(-2, 2))) * ax_, ax_]
+        for thx in (math.pi, -math.pi, float(g.uniform(math.pi, 4 * math.pi)) * float(g.choice([-1, 1])), float(10.0 ** g.uniform(0, 6)) if kind_ == 'prismatic' else float(g.uniform(-1, 1))):
+            inp = dict(S=Su, theta=thx, kind=kind_); refx = ref_exp(skewa(Su * thx)) if abs(thx) < 50 else np.block([[np.eye(3), (Su[:3] * thx).reshape(3, 1)], [np.zeros((1, 3)), np.ones((1, 1))]])
+            ok, r = L.noraise('exp(S,theta)', lambda: (b.trexp(Su, thx), Twist3(Su).exp(thx).A, Twist3(Su).exp([thx, thx / 2])[0].A), inp, 'trexp(S, theta) / Twist3.exp(theta) for a unit twist')
+            if ok:
+                for nm_, got_ in zip(('trexp(S,theta)', 'Twist3.exp(theta)', 'Twist3.exp([theta, ..])[0]'), r):
+                    L.close(f'{nm_}=exp(theta S)', got_, refx, TOL, max(1.0, geom.tmag(refx)), inp, what=f'{nm_} differs from the exponential of theta * S for a unit {kind_} twist', sig='exp(S,theta)')
     # ---- trexp2(S, theta) == trexp2(theta * S) for planar unit twists of either sense, vector and matrix form ---------------
     for k_ in range(40 if tier == 'quick' else 600):
         wsign = float(g.choice([-1.0, 1.0])); vv = g.normal(size=2) * 10.0 ** g.uniform(-3, 2)
